@@ -2,6 +2,7 @@ CONSTANTS Streams <- Medium
   LenOf <- Lens
   ReadMax = 2048
   MaxReads = 0
+  Fails <- FewFail
   Cuts <- NoCuts
   D = 0
 INIT Init
